@@ -2,7 +2,9 @@
    - the import set is a set (imp_extend), the use-tree iterator (item_use_iter) finds exactly the name
      leaves of the trees it is given, under the base crate fixed by the first path segment;
    - the multi-file visitor parses the same items as the single-file visitor (only p_imports differs);
-   - p_type_names is the set of generated names of the parsed items;
+   - p_type_names is the set of generated names of the parsed TYPES (structs, enums, aliases; not consts);
+   - a glob leaf of a use tree is yielded as a `*` import under the tree's base crate and survives
+     reconcile_referenced_types;
    - reconcile_referenced_types keeps the import of every referenced, non-local name. *)
 From Coq Require Import List Bool Lia Permutation String.
 From TS Require Import Model.Str Model.Outcome Model.Unicode Model.Syntax Model.Attrs Model.Rename Model.Types Model.Parse
@@ -44,6 +46,9 @@ Qed.
 (* ====================================================================================== *)
 Lemma name_leaf_group n l : name_leaf n (UGroup l) = existsb (name_leaf n) l.
 Proof. cbn [name_leaf]. induction l as [|x l IH]; [reflexivity|]. cbn [existsb]. now rewrite IH. Qed.
+
+Lemma glob_leaf_group l : glob_leaf (UGroup l) = existsb glob_leaf l.
+Proof. cbn [glob_leaf]. induction l as [|x l IH]; [reflexivity|]. cbn [existsb]. now rewrite IH. Qed.
 
 Section Iter.
 Variable uc : unicode.
@@ -123,6 +128,29 @@ Proof.
       pose proof (IH _ _ E t Ht Hl) as K. destruct (accept_crate uc _); [now right|exact K].
     + destruct Ht as [<-|Ht].
       * rewrite name_leaf_group in Hl. apply existsb_exists in Hl as (x & Hx & Hlx).
+        apply (IH _ _ H x); [apply in_app_iff; left; now apply in_rev in Hx|exact Hlx].
+      * apply (IH _ _ H t); [apply in_app_iff; now right|exact Hl].
+Qed.
+
+(* and every glob leaf of every tree on the stack is yielded as a `*` import *)
+Lemma iter_glob_complete fuel b :
+  accept_crate uc (resolve_crate own b) = true ->
+  forall stack res, item_use_iter uc fuel own stack (Some b) = Ok res ->
+  forall t, In t stack -> glob_leaf t = true -> In {| base_crate := resolve_crate own b; type_name := GLOB |} res.
+Proof.
+  intros Hc. induction fuel as [|fuel IH]; intros stack res H t Ht Hl.
+  - destruct stack; [destruct Ht|cbn [item_use_iter] in H; discriminate].
+  - destruct stack as [|t0 rest]; [destruct Ht|]. cbn [item_use_iter] in H.
+    destruct t0 as [id sub|id|id al| |items].
+    + destruct Ht as [<-|Ht]; [apply (IH _ _ H sub); [now left|exact Hl]|apply (IH _ _ H t); [now right|exact Hl]].
+    + iter_step H. injection H as <-.
+      destruct Ht as [<-|Ht]; [discriminate Hl|].
+      pose proof (IH _ _ E t Ht Hl) as K. destruct (_ && _); [now right|exact K].
+    + destruct Ht as [<-|Ht]; [discriminate Hl|exact (IH _ _ H t Ht Hl)].
+    + iter_step H. injection H as <-. rewrite Hc.
+      destruct Ht as [<-|Ht]; [now left|]. right. exact (IH _ _ E t Ht Hl).
+    + destruct Ht as [<-|Ht].
+      * rewrite glob_leaf_group in Hl. apply existsb_exists in Hl as (x & Hx & Hlx).
         apply (IH _ _ H x); [apply in_app_iff; left; now apply in_rev in Hx|exact Hlx].
       * apply (IH _ _ H t); [apply in_app_iff; now right|exact Hl].
 Qed.
@@ -252,10 +280,10 @@ Proof. apply vims_of_forall. apply Forall_forall. intros x _. apply vim_all. Qed
 End Visit.
 
 (* ====================================================================================== *)
-(* p_type_names = the generated names of the parsed items                                  *)
+(* p_type_names = the generated names of the parsed TYPES (a const is not entered: parser.rs push) *)
 (* ====================================================================================== *)
 Definition tn_ok (pd : parsed) : Prop :=
-  forall n, In n (p_type_names pd) <-> exists it, In it (items_of pd) /\ renamed (item_id it) = n.
+  forall n, In n (p_type_names pd) <-> exists it, In it (items_of pd) /\ is_type14 it = true /\ renamed (item_id it) = n.
 
 Lemma tn_ok_core pd : tn_ok (core pd) <-> tn_ok pd.
 Proof. reflexivity. Qed.
@@ -272,14 +300,19 @@ Proof.
   unfold items_of. destruct it; cbn [push p_aliases p_structs p_enums p_consts];
     rewrite ?map_app, ?in_app_iff; cbn [map In]; intuition congruence.
 Qed.
-Lemma push_names pd it : p_type_names (push pd it) = tn_insert (renamed (item_id it)) (p_type_names pd).
+Lemma push_names pd it :
+  p_type_names (push pd it) = if is_type14 it then tn_insert (renamed (item_id it)) (p_type_names pd) else p_type_names pd.
 Proof. destruct it; reflexivity. Qed.
 
 Lemma push_tn_ok pd it : tn_ok pd -> tn_ok (push pd it).
 Proof.
-  intros H n. unfold tn_ok in H. rewrite push_names, tn_insert_in, H. split.
-  - intros [->|(x & Hx & E)]; [exists it; split; [apply push_items; now left|reflexivity]|exists x; split; [apply push_items; now right|exact E]].
-  - intros (x & Hx & E). apply push_items in Hx as [->|Hx]; [now left|right; now exists x].
+  intros H n. unfold tn_ok in H. rewrite push_names. destruct (is_type14 it) eqn:Ty.
+  - rewrite tn_insert_in, H. split.
+    + intros [->|(x & Hx & T & E)]; [exists it; split; [apply push_items; now left|split; [exact Ty|reflexivity]]|exists x; split; [apply push_items; now right|split; [exact T|exact E]]].
+    + intros (x & Hx & T & E). apply push_items in Hx as [->|Hx]; [now left|right; now exists x].
+  - rewrite H. split.
+    + intros (x & Hx & T & E). exists x. split; [apply push_items; now right|split; [exact T|exact E]].
+    + intros (x & Hx & T & E). apply push_items in Hx as [->|Hx]; [congruence|now exists x].
 Qed.
 
 Lemma collect_result_tn_ok pd r pd' : tn_ok pd -> collect_result pd r = Ok pd' -> tn_ok pd'.
@@ -298,6 +331,13 @@ Qed.
 
 Lemma tn_ok_empty : tn_ok empty_parsed.
 Proof. intros n. split; [intros []|intros (it & [] & _)]. Qed.
+
+(* the reading used downstream: a name of the table is the generated name of a type item, and conversely *)
+Lemma tn_ok_type pd n : tn_ok pd -> In n (p_type_names pd) ->
+  exists it, In it (filter is_type14 (items_of pd)) /\ renamed (item_id it) = n.
+Proof. intros H Hn. apply H in Hn as (it & Hit & T & E). exists it. split; [apply filter_In; now split|exact E]. Qed.
+Lemma tn_ok_of_type pd it : tn_ok pd -> In it (items_of pd) -> is_type14 it = true -> In (renamed (item_id it)) (p_type_names pd).
+Proof. intros H Hit T. apply H. now exists it. Qed.
 
 Lemma parse_file_tn_ok uc tstr T f pd : parse_file uc tstr T f = Ok (Some pd) -> tn_ok pd.
 Proof.
@@ -421,6 +461,15 @@ Proof.
     + apply in_map_iff in Ht as (f & <- & Hf). apply in_flat_map. now exists f.
   - apply in_items_alias in Hit. right. right. left. apply in_flat_map. exists a. split; [exact Hit|]. destruct Ht as [<-|[]]. exact K.
   - apply in_items_const in Hit. right. right. right. apply in_flat_map. exists c. split; [exact Hit|]. destruct Ht as [<-|[]]. exact K.
+Qed.
+
+(* every `*` candidate survives reconcile_referenced_types, referenced or not *)
+Lemma rrt_keeps_glob uc ho pd target :
+  In target (p_imports pd) -> type_name target = GLOB ->
+  In target (p_imports (reconcile_referenced_types uc ho pd)).
+Proof.
+  intros Ht Hg. unfold reconcile_referenced_types. cbn [p_imports with_imports].
+  apply imp_extend_in. right. apply filter_In. split; [exact Ht|]. rewrite Hg. apply str_eqb_refl.
 Qed.
 
 Lemma all_references_core uc pd pd' : core pd = core pd' -> all_references uc pd = all_references uc pd'.
